@@ -9,12 +9,15 @@ import (
 	"encoding/json"
 	"fmt"
 	"os"
+	"reflect"
 	"runtime"
 	"strconv"
 	"strings"
 	"sync"
+	"sync/atomic"
 	"testing"
 	"time"
+	"unsafe"
 
 	"github.com/rs/zerolog/diode"
 	"pgregory.net/rapid"
@@ -203,4 +206,221 @@ func TestReplay(t *testing.T) {
 			t.Fatalf("%s", msg)
 		}
 	}
+}
+
+// presetSequence puts the ring's sequence numbers where they are after `base` messages have passed
+// through the writer and been consumed (white-box state injection: running 2^32 messages through a
+// diode is out of reach, a service that has been up for months is there). Must be called before the
+// first Write; the consumer is idle then and re-reads the index on every attempt.
+func presetSequence(dw *diode.Writer, base uint64) error {
+	f := reflect.ValueOf(dw).Elem().FieldByName("d")
+	if !f.IsValid() {
+		return fmt.Errorf("diode.Writer has no field d")
+	}
+	fetcher := reflect.NewAt(f.Type(), unsafe.Pointer(f.UnsafeAddr())).Elem().Elem() // *diodes.Waiter or *diodes.Poller
+	if fetcher.Kind() != reflect.Ptr {
+		return fmt.Errorf("unexpected fetcher kind %v", fetcher.Kind())
+	}
+	d := fetcher.Elem().FieldByName("Diode")
+	if !d.IsValid() {
+		return fmt.Errorf("fetcher has no field Diode")
+	}
+	ring := d.Elem() // *diodes.ManyToOne
+	if ring.Kind() != reflect.Ptr {
+		return fmt.Errorf("unexpected ring kind %v", ring.Kind())
+	}
+	wi, ri := ring.Elem().FieldByName("writeIndex"), ring.Elem().FieldByName("readIndex")
+	if !wi.IsValid() || !ri.IsValid() || wi.Kind() != reflect.Uint64 || ri.Kind() != reflect.Uint64 {
+		return fmt.Errorf("ring has no uint64 writeIndex/readIndex")
+	}
+	atomic.StoreUint64((*uint64)(unsafe.Pointer(wi.UnsafeAddr())), base-1) // the next claim is base
+	atomic.StoreUint64((*uint64)(unsafe.Pointer(ri.UnsafeAddr())), base)
+	return nil
+}
+
+type gatedSink struct {
+	mu   sync.Mutex
+	got  []string
+	gate chan struct{}
+}
+
+func (s *gatedSink) Write(p []byte) (int, error) {
+	<-s.gate // the first delivery waits until the producers are done: the backlog is everything written
+	s.mu.Lock()
+	s.got = append(s.got, string(p))
+	s.mu.Unlock()
+	return len(p), nil
+}
+
+// TestSequenceWrap: a long-lived writer whose sequence numbers are about to pass 2^32 (2^16, 2^31), with
+// ring sizes that are not powers of two and a backlog that straddles the crossing but never fills the
+// ring: every message is delivered, once, in order, nothing is reported dropped, Close returns.
+func TestSequenceWrap(t *testing.T) {
+	var n int64
+	for _, poller := range []bool{false, true} {
+		for _, size := range []int{3, 7, 10, 1000, 8} {
+			for _, cross := range []uint64{1 << 32, 1 << 31, 1 << 16, 1 << 8} {
+				total := size - 1 // never laps the reader
+				for _, before := range []int{0, 1, total / 2, total - 1} {
+					if uint64(before) > cross {
+						continue
+					}
+					base := cross - uint64(before)
+					dst := &gatedSink{gate: make(chan struct{})}
+					var amu sync.Mutex
+					reported := 0
+					poll := time.Duration(0)
+					if poller {
+						poll = 200 * time.Microsecond
+					}
+					dw := diode.NewWriter(dst, size, poll, func(m int) { amu.Lock(); reported += m; amu.Unlock() })
+					key := fmt.Sprintf("seqwrap poller=%v size=%d cross=2^%d before=%d", poller, size, bitsOf(cross), before)
+					if err := presetSequence(&dw, base); err != nil {
+						t.Fatalf("HARNESS-ERROR: cannot preset the ring's sequence numbers: %v", err)
+					}
+					for k := 0; k < total; k++ {
+						m := []byte(message(0, k, 24))
+						if nw, err := dw.Write(m); err != nil || nw != len(m) {
+							t.Fatalf("[%s] Write returned (%d, %v)", key, nw, err)
+						}
+					}
+					close(dst.gate)
+					closed := make(chan struct{})
+					go func() { dw.Close(); close(closed) }()
+					bad := ""
+					select {
+					case <-closed:
+					case <-time.After(20 * time.Second):
+						bad = "Close did not return within 20 s"
+					}
+					dst.mu.Lock()
+					got := append([]string{}, dst.got...)
+					dst.mu.Unlock()
+					amu.Lock()
+					rep := reported
+					amu.Unlock()
+					n++
+					rec.Case([]byte(key), true, "sequence-wrap")
+					if bad == "" && (len(got) != total || rep != 0) {
+						bad = fmt.Sprintf("%d of %d messages delivered, %d reported dropped, although the ring (size %d) never held more than %d", len(got), total, rep, size, total)
+					}
+					for k := 0; k < len(got) && bad == ""; k++ {
+						if got[k] != message(0, k, 24) {
+							bad = fmt.Sprintf("delivery %d is %q, want %q", k, got[k], message(0, k, 24))
+						}
+					}
+					if bad != "" {
+						ev.SaveReplay("C10-realrt-seqwrap", map[string]interface{}{"poller": poller, "size": size, "first_sequence_number": base, "messages": total})
+						fmt.Printf("VERIF-FAIL: [%s] sequence numbers starting at %d: %s\n", key, base, bad)
+						t.Fatalf("%s", bad)
+					}
+				}
+			}
+		}
+	}
+	// the same crossing with the reader lapped just before it: stale buckets from below the boundary are
+	// still in the ring when the first positions above it are read
+	for _, poller := range []bool{false, true} {
+		for _, size := range []int{3, 7, 8, 10} {
+			for _, cross := range []uint64{1 << 32, 1 << 31, 1 << 16} {
+				for _, before := range []int{size, size + 1, 2*size + 1} {
+					base := cross - uint64(before)
+					dst := &gatedSink{gate: make(chan struct{})}
+					var amu sync.Mutex
+					reported, badAlert := 0, 0
+					poll := time.Duration(0)
+					if poller {
+						poll = 200 * time.Microsecond
+					}
+					dw := diode.NewWriter(dst, size, poll, func(m int) {
+						amu.Lock()
+						if m <= 0 {
+							badAlert = m
+						}
+						reported += m
+						amu.Unlock()
+					})
+					key := fmt.Sprintf("seqwrap-lapped poller=%v size=%d cross=2^%d before=%d", poller, size, bitsOf(cross), before)
+					if err := presetSequence(&dw, base); err != nil {
+						t.Fatalf("HARNESS-ERROR: cannot preset the ring's sequence numbers: %v", err)
+					}
+					first := 2*size + 3
+					for k := 0; k < first; k++ {
+						dw.Write([]byte(message(0, k, 24)))
+					}
+					close(dst.gate)
+					// let the consumer catch up, then a few more messages above the boundary
+					deadline := time.Now().Add(5 * time.Second)
+					for time.Now().Before(deadline) {
+						dst.mu.Lock()
+						ok := len(dst.got) > 0 && dst.got[len(dst.got)-1] == message(0, first-1, 24)
+						dst.mu.Unlock()
+						if ok {
+							break
+						}
+						time.Sleep(200 * time.Microsecond)
+					}
+					total := first + size - 1
+					for k := first; k < total; k++ {
+						dw.Write([]byte(message(0, k, 24)))
+					}
+					closed := make(chan struct{})
+					go func() { dw.Close(); close(closed) }()
+					bad := ""
+					select {
+					case <-closed:
+					case <-time.After(20 * time.Second):
+						bad = "Close did not return within 20 s"
+					}
+					dst.mu.Lock()
+					got := append([]string{}, dst.got...)
+					dst.mu.Unlock()
+					amu.Lock()
+					rep, ba := reported, badAlert
+					amu.Unlock()
+					n++
+					rec.Case([]byte(key), true, "sequence-wrap-lapped")
+					last := -1
+					for _, m := range got {
+						if bad != "" {
+							break
+						}
+						var p, k int
+						if c, _ := fmt.Sscanf(m, "p%d-%d|", &p, &k); c != 2 || m != message(0, k, 24) || k >= total {
+							bad = fmt.Sprintf("destination received %q, which is not the argument of any Write", m)
+						} else if k <= last {
+							bad = fmt.Sprintf("message %d delivered after message %d", k, last)
+						}
+						last = k
+					}
+					switch {
+					case bad != "":
+					case ba != 0:
+						bad = fmt.Sprintf("alerter called with %d", ba)
+					case rep > total:
+						bad = fmt.Sprintf("alerter reported %d missed messages but only %d ring positions were claimed", rep, total)
+					case len(got)+rep < total:
+						bad = fmt.Sprintf("after Close: delivered %d + reported %d < written %d", len(got), rep, total)
+					case len(got) == 0 || got[len(got)-1] != message(0, total-1, 24):
+						bad = fmt.Sprintf("the last message written before Close (%d) was not delivered although the ring was not full", total-1)
+					}
+					if bad != "" {
+						ev.SaveReplay("C10-realrt-seqwrap", map[string]interface{}{"poller": poller, "size": size, "first_sequence_number": base, "messages": total, "lapped": true})
+						fmt.Printf("VERIF-FAIL: [%s] sequence numbers starting at %d: %s\n", key, base, bad)
+						t.Fatalf("%s", bad)
+					}
+				}
+			}
+		}
+	}
+	rec.Exhaustive(fmt.Sprintf("%d configurations: {waiter, poller} x ring sizes {3,7,8,10,1000} x sequence numbers crossing 2^8, 2^16, 2^31, 2^32 at 4 offsets inside a backlog of size-1 messages, and the same crossings with the reader lapped just below the boundary", n))
+}
+
+func bitsOf(x uint64) int {
+	b := 0
+	for x > 1 {
+		x >>= 1
+		b++
+	}
+	return b
 }
